@@ -785,8 +785,10 @@ def sorted_slist(I, seq: SList, key):
     PI of 0..n-1 (PI maps into range; SIG is its right inverse, so every input occurs) and is pairwise
     non-decreasing in the key (lexicographic on tuples). Stability is not needed by any caller and not stated."""
     n = seq.length
-    PI = z3.Function(z3.FreshConst(z3.IntSort(), "PI").decl().name(), z3.IntSort(), z3.IntSort())
-    SIG = z3.Function(z3.FreshConst(z3.IntSort(), "SIG").decl().name(), z3.IntSort(), z3.IntSort())
+    from .smt import fresh_name
+
+    PI = z3.Function(fresh_name("PI"), z3.IntSort(), z3.IntSort())
+    SIG = z3.Function(fresh_name("SIG"), z3.IntSort(), z3.IntSort())
     a, b = z3.Ints("srt!a srt!b")
     rng = lambda k: z3.And(k >= 0, k < Z(n))  # noqa: E731
     I.ctx.assume(z3.ForAll([a], z3.Implies(rng(a), rng(PI(a))), patterns=[PI(a)]))
